@@ -301,6 +301,18 @@ class RuleTable:
     # ---- one call at module top level
     def _call(self, m, c, env):
         f = c.func
+        if isinstance(f, ast.Name) and f.id not in env:
+            # NAME = functools.partial(F, a, .., k=v) bound once at module level: NAME(x, ..) is F(a, .., x, .., k=v)
+            bl = m.top.get(f.id)
+            if bl and len(bl) == 1 and bl[-1][0] == "assign" and isinstance(bl[-1][1], ast.Call):
+                pc = bl[-1][1]
+                pr = self.repo.resolve_expr(m, pc.func)
+                if pr is not None and pr.qual == "functools.partial" and pc.args and not any(isinstance(a, ast.Starred) for a in pc.args) and all(k.arg is not None for k in pc.keywords):
+                    c2 = ast.Call(func=pc.args[0], args=list(pc.args[1:]) + list(c.args), keywords=list(pc.keywords) + list(c.keywords))
+                    ast.copy_location(c2, c)
+                    ast.fix_missing_locations(c2)
+                    c2._parent = getattr(c, "_parent", None)
+                    return self._call(m, c2, env)
         fref = self.repo.resolve_expr(m, f)
         if fref is not None and fref.qual in REG_API:
             self.sites += 1
